@@ -155,16 +155,25 @@ def parse_log(out):
 PLAYBACK_RE = re.compile(r"Concrete playback unit test for `([^`]+)`:\n```\n(.*?)```", re.S)
 
 
-def playback_tests(out):
-    """(kind, description, test source, fn name) for each generated unit test that belongs to a failed check."""
-    tests = []
+def playback_tests(out, failed_descriptions=()):
+    """(kind, description, test source, fn name) for each generated unit test that belongs to a failed check.
+    Kani names a test by the hash of its values and prints it once: when the trace of a failed assertion has the same values as
+    the trace of a cover witness, only the cover's copy appears.  If no test of a failed check was printed, the cover tests
+    are returned instead, relabelled with the failed checks' descriptions - the native run decides whether one of them panics
+    with that message."""
+    tests, covers = [], []
     for _, src in PLAYBACK_RE.findall(out):
         m = re.search(r"/// Check for `(\w+)`: \"(.*)\"", src)
         kind, desc = (m.group(1), m.group(2)) if m else ("?", "?")
         fn = re.search(r"fn (kani_concrete_playback_\w+)\(", src)
-        if kind == "cover":
-            continue
-        tests.append({"kind": kind, "description": desc, "src": src, "fn": fn.group(1) if fn else None})
+        t = {"kind": kind, "description": desc, "src": src, "fn": fn.group(1) if fn else None}
+        (covers if kind == "cover" else tests).append(t)
+    if not tests and covers and failed_descriptions:
+        for t in covers:
+            t["kind"] = "assertion(via cover witness values)"
+            t["cover"] = t["description"]
+            t["description"] = " | ".join(failed_descriptions)
+        return covers
     return tests
 
 
@@ -267,9 +276,10 @@ def replay(ob, tests, tag, profile_release=False):
             hist = "\n".join(l for l in out.splitlines() if l.startswith(("descriptor table:", "  call ", "trace:")))
             if hist:
                 msg += "\n" + hist[:3000]
-            desc = (t.get("description") or "").strip('"')
-            panicked_with_it = st != "mismatch" and "panicked at" in out and desc and desc in out
-            results.append((t, st == "FAILED" or bool(panicked_with_it), msg if msg else ("test result: %s; tail: %s" % (st, out[-300:]))))
+            descs = [d.strip('"') for d in (t.get("description") or "").split(" | ") if d.strip('"')]
+            panicked_with_it = st != "mismatch" and "panicked at" in out and any(d in out for d in descs)
+            ok = bool(panicked_with_it) if t.get("cover") else (st == "FAILED" or bool(panicked_with_it))
+            results.append((t, ok, msg if msg else ("test result: %s; tail: %s" % (st, out[-300:]))))
     finally:
         shutil.rmtree(work, ignore_errors=True)
     return results
@@ -373,7 +383,7 @@ def check_property(prop, tier, seed, only=None, jobs=None, assumptions=None, out
         ob = r["ob"]
         is_known = ob.known and ob.known in known
         if r["class"] == "fail":
-            tests = [] if ob.noreplay else playback_tests(r["out"])
+            tests = [] if ob.noreplay else playback_tests(r["out"], [f["description"] for f in r["real_fail"]])
             reps = replay(ob, tests, prop + "_" + ob.fn) if tests else []
             replays_done += len(reps)
             reproduced = [x for x in reps if x[1]]
